@@ -37,6 +37,7 @@ use std::sync::Arc;
 mod carrier;
 mod external;
 mod gen_cases;
+mod toval;
 
 pub use gen_cases::generate;
 
@@ -539,6 +540,10 @@ pub fn ser_kind(e: &SerializationError) -> String {
 
 pub fn de_kind(e: &DeserializationError) -> String {
     let Some(b) = e.downcast_ref::<BuiltinDeserializationError>() else {
+        // the typed tuple macro wraps the raw `read_cql_bytes` failure directly
+        if e.downcast_ref::<scylla_cql_core::frame::frame_errors::LowLevelDeserializationError>().is_some() {
+            return "RawCqlBytesReadError".to_owned();
+        }
         return "Other".to_owned();
     };
     match &b.kind {
@@ -968,7 +973,7 @@ pub fn run(case: &str, ctx: &mut Ctx) -> String {
             }
             run_dyn(&ty, &val, ctx)
         }
-        Some("carrier") | Some("carrierset") => {
+        Some("carrier") | Some("carrierset") | Some("carrierser") => {
             let Some(name) = c.next() else { return "bad-case".to_owned() };
             let (Some(ty), Some(val)) = (parse_ty(&mut c), parse_val(&mut c)) else { return "bad-case".to_owned() };
             if c.pos != c.toks.len() {
@@ -1006,6 +1011,29 @@ pub fn run(case: &str, ctx: &mut Ctx) -> String {
         Some("big") => {
             // a blob of n zero bytes (lazily allocated): only the size check is exercised
             let (Some(kind), Some(n)) = (c.next(), c.num()) else { return "bad-case".to_owned() };
+            if kind == "unsetvec" {
+                // `Unset` is zero-sized: a Vec of 2^31 of them costs nothing; the element count check comes first
+                let v = vec![Unset; n];
+                let ct = to_column_type(&Ty::List(Box::new(Ty::Native(NativeType::Int))));
+                let mut buf = Vec::new();
+                if n > 4096 && n <= i32::MAX as usize {
+                    return "bad-case".to_owned();
+                }
+                return match v.serialize(&ct, CellWriter::new(&mut buf)) {
+                    Ok(_) => {
+                        if n > i32::MAX as usize {
+                            ctx.fail(format!("size: a list of {} elements was accepted", n));
+                        }
+                        format!("ok {}", buf.len())
+                    }
+                    Err(e) => {
+                        if n <= i32::MAX as usize {
+                            ctx.fail(format!("size: a list of {} elements was rejected", n));
+                        }
+                        format!("err {}", ser_kind(&e))
+                    }
+                };
+            }
             if kind != "blob" || n > (1usize << 31) + 16 {
                 return "bad-case".to_owned();
             }
@@ -1026,6 +1054,7 @@ pub fn run(case: &str, ctx: &mut Ctx) -> String {
                 }
             }
         }
+        Some("conv") => external::run_conv(&c.toks[1..]),
         Some("tdec") => {
             let Some(name) = c.next() else { return "bad-case".to_owned() };
             let Some(ty) = parse_ty(&mut c) else { return "bad-case".to_owned() };
